@@ -611,7 +611,7 @@ def c17_cfg(tier, seed, emit=True, waitdelay=1, bound=3, spec="PSpec", props=())
 
 
 def c17_overlap_cfg(tier, pooled=False, emit=True, invs=("NonInterference", "OwnBuffer", "TypeOK", "Inv_Emit")):
-    calls = "{1, 2, 3, 4}" if tier == "thorough" and emit is False else "{1, 2, 3}"
+    calls = "{1, 2, 3, 4}" if tier == "thorough" else "{1, 2, 3}"
     return mc_cfg(list(invs), consts=["Calls = " + calls, f"Pooled = {'TRUE' if pooled else 'FALSE'}"], emit=emit)
 
 
@@ -643,7 +643,7 @@ PLANS["C17"] = dict(
         # decodes (90 for three calls) is a schedule replayed against the real CLIPlugin, the caller's logger being the scheduler's gate
         dict(name="mutant-pooled-buffers", mc=dict(module="PluginOverlap", cfg=lambda tier, seed: c17_overlap_cfg(tier, pooled=True, emit=False, invs=("NonInterference",)), expect_violation="NonInterference")),
         dict(name="overlap",
-             gen=dict(module="PluginOverlap", cfg=lambda tier, seed: c17_overlap_cfg(tier), select=slicer(90)),
+             gen=dict(module="PluginOverlap", cfg=lambda tier, seed: c17_overlap_cfg(tier), select=take_all),
              drive=dict(driver="pluginoverlap", race=True),
              validate=dict(module="Trace_PluginProc", cfg=cfg_lines("SPECIFICATION Spec", 'CONSTANT TraceFile = "trace.ndjson"', "CONSTANT Cap = 2", "CONSTANT Deadline = 2",
                                                                     "CONSTANT WaitDelay = 1", "CONSTANT HoldFor = 6", "CONSTANT Bound = 3", "POSTCONDITION AllConsumed", "CHECK_DEADLOCK FALSE"))),
